@@ -16,6 +16,7 @@ pub mod c01facts;
 pub mod c01model;
 pub mod c01parse;
 pub mod c01gen;
+pub mod c07dbg;
 pub mod c07tree;
 pub mod c17frame;
 pub mod c17asm;
